@@ -24,6 +24,8 @@ func main() {
 		json.Unmarshal(run.ReplayCase, &c)
 		if c.Layer == "oracle" {
 			dataRequestFees(run, c.Case)
+		} else if strings.Contains(c.Cfg, "ExtraUsers:1 ") {
+			tunnelFees(run)
 		} else if strings.Contains(c.Cfg, "GenesisExtra:0x") {
 			oracleSignFees(run)
 		} else {
@@ -34,10 +36,11 @@ func main() {
 	run.Shard(4)
 	signingFees(run)
 	oracleSignFees(run)
+	tunnelFees(run)
 	sim.ParallelCases(run.N(120, 3000), 16, func(i int) { dataRequestFees(run, i) })
 	for _, c := range []string{"req-paid", "member-payouts", "fee-per-signer-changed-mid-history", "member-payouts-at-the-fee-charged-before-a-fee-change", "req-rejected-over-limit", "ledger-blocks-checked", "oracle-req-paid", "oracle-req-free",
 		"oracle-req-rejected-over-limit", "oracle-req-rejected-insufficient-balance", "oracle-ledger-blocks-checked",
-		"oracle-tss-requests", "oracle-tss-result-signings-paid", "oracle-tss-result-signing-refused:limit-exhausted", "oracle-tss-resolved-without-success"} {
+		"tunnel-packet-paid", "tunnel-packet-failed(nothing may move)", "tunnel-deactivated-for-lack-of-funds", "oracle-tss-requests", "oracle-tss-result-signings-paid", "oracle-tss-result-signing-refused:limit-exhausted", "oracle-tss-resolved-without-success"} {
 		run.Require(c, 1)
 	}
 	run.Finish()
